@@ -48,6 +48,11 @@ func Verif_C09_RpmScripts() {
 			}
 		}
 	}
+	// two events may be served by one script file: both slots must then carry it
+	if set[0] && set[1] && v.NondetBool("share.one.file") {
+		sc.Info.Scripts.PostInstall = sc.Info.Scripts.PreInstall
+		body[1] = body[0]
+	}
 	var buf bytes.Buffer
 	err := Default.Package(sc.Info, &buf)
 	v.Reach("C09.rpm.ran")
